@@ -144,10 +144,10 @@ type c03Q struct {
 	Os []*c03Obj
 }
 
-func (q *c03Q) A(x int32, y string) int                            { return int(x) + len(y) }
+func (q *c03Q) A(x int32, y string) int                                       { return int(x) + len(y) }
 func (q *c03Q) S(in map[string]interface{}, l []interface{}, e string) string { return "s" }
-func (q *c03Q) U() []interface{}                                   { return []interface{}{q.O, &c03Other{Name: "t", W: 1}} }
-func (q *c03Q) N(req int32) int                                    { return int(req) }
+func (q *c03Q) U() []interface{}                                              { return []interface{}{q.O, &c03Other{Name: "t", W: 1}} }
+func (q *c03Q) N(req int32) int                                               { return int(req) }
 
 type c03Obj struct {
 	Name string
@@ -155,8 +155,8 @@ type c03Obj struct {
 	Kids []*c03Obj
 }
 
-func (o *c03Obj) Two(p int32, q bool) int { return int(p) }
-func (o *c03Obj) Says(loud bool, times int32) string { return "obj" }
+func (o *c03Obj) Two(p int32, q bool) int              { return int(p) }
+func (o *c03Obj) Says(loud bool, times int32) string   { return "obj" }
 func (o *c03Other) Says(loud bool, times int32) string { return "other" }
 
 type c03Other struct {
@@ -226,6 +226,16 @@ func (c03Any) Nth(list interface{}, i int) (interface{}, error) {
 	}
 	return nil, nil
 }
+
+type c03Priv struct {
+	b     int32
+	items []string
+}
+
+func (p *c03Priv) B() int32        { return p.b }
+func (p *c03Priv) Items() []string { return p.items }
+
+type c03PrivSchem struct{ Query *c03Priv }
 
 func c03Root(strategy string) *ggql.Root {
 	var root *ggql.Root
@@ -327,6 +337,12 @@ func c03RunEntry(kind string, arg1, arg2, arg3 []byte) T {
 			root = ggql.NewRoot(top())
 			_ = root.ParseString("type Query { b: Int }\ntype M { m(x: Int): Int }")
 			_ = root.ParseString("extend schema { mutation: M }")
+		case "reflect-unexported-member":
+			// a Go struct with an unexported member whose name is a field's name in another case, next to the
+			// method that serves the field: reflection must not read the member
+			root = ggql.NewRoot(&c03PrivSchem{Query: &c03Priv{b: 7, items: []string{"x"}}})
+			_ = root.ParseString("type Query { b: Int items: [String] }")
+			reqs = append(reqs, "{ items }", "{ b items }")
 		default:
 			return A("bad-kind")
 		}
@@ -403,8 +419,8 @@ func c03Worker() {
 // ---- worker pool with watchdog ----------------------------------------------------------------------------
 
 type c03Job struct {
-	line string // worker protocol line
-	obs  T
+	line  string // worker protocol line
+	obs   T
 	crash string // stderr tail when the worker died
 }
 
@@ -974,7 +990,9 @@ func c03FragCheck(o *Out, r *Rng) {
 	o.Emit(Case{Term: N("c03f", LS(nt), LS(et)), Obs: LS(reported), Meta: map[string]interface{}{"doc": b.String(), "class": "fragcheck"}, Nontrivial: true})
 }
 
-func c03Deep(open, close string, n int) string { return strings.Repeat(open, n) + strings.Repeat(close, n) }
+func c03Deep(open, close string, n int) string {
+	return strings.Repeat(open, n) + strings.Repeat(close, n)
+}
 
 func runC03(o *Out, r *Rng, tier string) {
 	nMal, nEntry := 6000, 1500
@@ -1093,7 +1111,7 @@ func runC03(o *Out, r *Rng, tier string) {
 		cases = append(cases, c03Entry("resolve", "iface", "{a(x: "+strings.Repeat("[", n)+")}", "{}", "very-deep"))
 	}
 	for _, sc := range []string{"fresh", "fresh-nilobj", "zero", "addtypes", "addtypes-then-load", "failed-load-only", "enum-then-query",
-		"extend-schema-fresh", "extend-schema-dir-fresh", "extend-schema-implied"} {
+		"extend-schema-fresh", "extend-schema-dir-fresh", "extend-schema-implied", "reflect-unexported-member"} {
 		cases = append(cases, c03Entry("api", sc, "", "", "api-root"))
 	}
 	for i := 0; len(cases)-entryStart < nEntry; i++ {
